@@ -138,7 +138,10 @@ def judge(c, rec):
     valid = inv is None or (isinstance(inv, str) and (inv.lower() == "none" or inv in ("monthly", "bimonthly")))
     if not valid:
         try:
-            m.predict(data, aggregation=inv)
+            if c.get("noise_seed", 0) % 2:
+                m.predict(data, inv)
+            else:
+                m.predict(data, aggregation=inv)
             rec.violation("invalid-accepted", c, "aggregation=%r was accepted" % (inv,))
         except ValueError:
             rec.expected("ValueError")
@@ -151,7 +154,9 @@ def judge(c, rec):
     for agg, k in (("monthly", 1), ("bimonthly", 2)):
         key = agg
         try:
-            out = m.predict(data, aggregation=agg)
+            # the aggregation level is the second parameter of the documented signature: by keyword, or by position
+            positional = (c.get("noise_seed", c.get("vseed", 0)) + k) % 3 == 0
+            out = m.predict(data, agg) if positional else m.predict(data, aggregation=agg)
         except Exception as e:
             from ..core import exc_bucket, short
 
